@@ -395,6 +395,12 @@ def curated_ctx():
         "t2": T(next=[dict(when="failed", do=["noop"])]),
         "t3": T(next=[dict(pub=[["y", "res"]], do=["t4"])]),
         "t4": T()}, output=[["ox", "ctx:x"], ["oy", "ctx:y"]]))
+    # ... the same with a branch that may fail (a rerun must keep the leaf's context in the output)
+    out.append(D.wf("leaf_unsatisfied_rerun", {
+        "t1": T(next=[dict(pub=[["x", "res"]], do=["t2"])]),
+        "t2": T(next=[dict(when="failed", do=["noop"])]),
+        "t3": T(next=[dict(pub=[["y", "res"]], do=["t4"])]),
+        "t4": T()}, vars=[["x", 0], ["y", 0]], output=[["ox", "ctx:x"], ["oy", "ctx:y"]], fates={"t4": A}))
     out.append(D.wf("no_leak", {
         "t1": T(next=[dict(when="succeeded", pub=[["x", "res"]], do=["t2"]), dict(when="succeeded", pub=[["y", "res"]], do=["t3"])]),
         "t2": T(next=[dict(pub=[["z", "ctx:x"]], do=["t4"])]),
